@@ -180,11 +180,25 @@ const PREFIX: [&str; 3] = ["JD", "MJD", "SEC"];
 
 /// numeric forms: "<JD|MJD|SEC> <value> <scale>"
 pub fn j_numeric(pf: usize, x: f64, ts: TimeScale, out: &mut Local) {
-    let vtext = format!("{x}");
-    let text = format!("{} {vtext} {}", PREFIX[pf], scale_name(ts));
+    // pf = prefix + 3 * rendering: the same float written with its shortest digits, or with 12 / 20 / 25 / 40 decimals
+    // (what "%.20f"-style printing of a float produces: digits beyond the 17th carry no information but are still text)
     let args = vec![pf.to_string(), ef64(x), scale_name(ts).to_string()];
-    // the harness's own reading of the decimal text must be the same float
-    assert_eq!(vtext.parse::<f64>().unwrap().to_bits(), x.to_bits());
+    let (pf, render) = (pf % 3, pf / 3);
+    let vtext = match render {
+        0 => format!("{x}"),
+        1 => format!("{x:.12}"),
+        2 => format!("{x:.20}"),
+        3 => format!("{x:.25}"),
+        _ => format!("{x:.40}"),
+    };
+    let text = format!("{} {vtext} {}", PREFIX[pf], scale_name(ts));
+    // the harness's own reading of the decimal text must be the same float (a fixed number of decimals may not be enough
+    // for a small value: such renderings denote another number and are not judged)
+    if vtext.parse::<f64>().unwrap().to_bits() != x.to_bits() {
+        assert!(render != 0);
+        out.dc(0);
+        return;
+    }
     if pf == 0 && (ts == TimeScale::ET || ts == TimeScale::TDB) {
         out.dc(0); // documented as approximate
         return;
@@ -363,7 +377,7 @@ pub fn run(rep: &mut Report) {
         xs.sort_by(|a, b| a.total_cmp(b));
         xs.dedup_by(|a, b| a.to_bits() == b.to_bits());
         let n = xs.len() as u64;
-        sweep(rep, &format!("c10.numeric[{}]", PREFIX[pf]), n * 9, |i, out| j_numeric(pf, xs[(i / 9) as usize], SCALES[(i % 9) as usize], out));
+        sweep(rep, &format!("c10.numeric[{}]", PREFIX[pf]), n * 9 * 5, |i, out| j_numeric(pf + 3 * ((i / 9) % 5) as usize, xs[(i / 45) as usize], SCALES[(i % 9) as usize], out));
     }
 }
 
